@@ -55,7 +55,8 @@ static void run(void)
 	int w = WINDOWS[xp_choose(nw, XP_SCENARIO, "window-bytes")];
 	int q = p + 1 + xp_choose(NSTEPS - p, XP_SCENARIO, "reopen-before-step"); /* NSTEPS = reopen after the last step */
 	int again = xp_choose(2, XP_DEV, "second-limit"); /* deviation: after reopening, the window is limited once more (to half of w) two steps later */
-	snprintf(what, sizeof(what), "%s subscriber: kernel accepts only %d byte(s) from step %d on, window reopens before step %d%s (write buffer %d bytes)", ws ? "websocket" : "raw", w, p, q, again ? ", limited again later" : "", (int)CONFIG_MAX_WRITE_BUFFER_SIZE);
+	int input_at_reopen = xp_choose(2, XP_SCENARIO, "input-at-reopen"); /* S sends something that needs no answer at the very moment its window reopens: readable and writable in one event */
+	snprintf(what, sizeof(what), "%s subscriber: kernel accepts only %d byte(s) from step %d on, window reopens before step %d%s%s (write buffer %d bytes)", ws ? "websocket" : "raw", w, p, q, again ? ", limited again later" : "", input_at_reopen ? ", S sends an answerless message in the same event" : "", (int)CONFIG_MAX_WRITE_BUFFER_SIZE);
 	int twin = xp_twin_begin();
 	struct sim_opts o = {0};
 	jx_boot(&o);
@@ -74,8 +75,26 @@ static void run(void)
 				sim_set_window(S, w);
 			}
 			if (i == q) {
+				if (input_at_reopen) {
+					struct bytebuf nb = {0};
+					if (ws) {
+						cl_frame_ws(&nb, 10, true, 0, true, 0, "x", 1); /* unsolicited pong */
+					} else {
+						static const uint8_t zero[4] = {0, 0, 0, 0}; /* zero-length message: skipped */
+						bb_append(&nb, zero, 4);
+					}
+					sim_client_send(S, nb.p, nb.len);
+					bb_free(&nb);
+				}
 				sim_set_window(S, -1);
 				jx_settle();
+				/* the socket takes everything again: whatever was queued for S must be on the wire now, up to the last byte of the last frame */
+				const struct bytebuf *now = sim_conn_output(S);
+				if (!sim_conn_closed_by_daemon(S) && now->len != clients[S].consumed) {
+					char key[120];
+					snprintf(key, sizeof(key), "backlog-not-flushed-when-writable:%s%s", ws ? "ws" : "raw", input_at_reopen ? ":with-input-in-the-same-event" : "");
+					fail10(key, "the window reopened and the daemon is idle, but S's stream ends %zu byte(s) into a frame: the rest is still held back", now->len - clients[S].consumed);
+				}
 			}
 			if (again && i == q + 2 && i < NSTEPS) {
 				sim_set_window(S, w / 2);
@@ -184,7 +203,7 @@ static void run(void)
 	xp_nontrivial();
 	xp_transition();
 	xp_outcome(hash64(raw->p, raw->len, 10));
-	xp_state(hash_mix((uint64_t)ws * 100000 + (uint64_t)p * 1000 + (uint64_t)w, (uint64_t)q * 2 + (uint64_t)again));
+	xp_state(hash_mix((uint64_t)ws * 100000 + (uint64_t)p * 1000 + (uint64_t)w, (uint64_t)q * 4 + (uint64_t)again * 2 + (uint64_t)input_at_reopen));
 }
 
 
@@ -335,6 +354,6 @@ const struct driver drv_c10s = {
     .name = "c10s",
     .property = "C10",
     .run = run_all,
-    .rule = "daemon level: an owner changes a state 10 times (value sizes 1..80 bytes) plus another state; subscriber S (raw / websocket) and a second subscriber of the other transport watch; for every step p, every window w in {0,1,2,3,4,5,7,10,25,40,60,95,96,97,130,200} bytes and every later step q the kernel accepts only w bytes on S's connection from p on and everything again from q on (deviation: limited a second time later); compared with the unlimited twin: S's stream decodes into complete frames, its frames are a subsequence of the twin's frames in order (prefix if the daemon closed it), the other connections see identical streams; non-trivial = all runs | section 1: a requester (raw / websocket) asks for an answer of one big frame (get over 70 states, ~6 KB) alone, at every position of a batch, or followed by another request in the same chunk, while the kernel accepts only w bytes (14 windows around frame size minus write buffer) and later everything or not: either the connection stays open and its stream equals the unlimited twin's, or the daemon closed it and the requester holds whole frames that are a prefix of the twin's plus at most one cut-off frame at the very end; the bystander is unaffected",
+    .rule = "daemon level: an owner changes a state 10 times (value sizes 1..80 bytes) plus another state; subscriber S (raw / websocket) and a second subscriber of the other transport watch; for every step p, every window w in {0,1,2,3,4,5,7,10,25,40,60,95,96,97,130,200} bytes and every later step q the kernel accepts only w bytes on S's connection from p on and everything again from q on, with or without an answerless message from S arriving in the same event as the writability (deviation: limited a second time later); when the window has reopened and the daemon is idle S's stream ends on a frame boundary; compared with the unlimited twin: S's stream decodes into complete frames, its frames are a subsequence of the twin's frames in order (prefix if the daemon closed it), the other connections see identical streams; non-trivial = all runs | section 1: a requester (raw / websocket) asks for an answer of one big frame (get over 70 states, ~6 KB) alone, at every position of a batch, or followed by another request in the same chunk, while the kernel accepts only w bytes (14 windows around frame size minus write buffer) and later everything or not: either the connection stays open and its stream equals the unlimited twin's, or the daemon closed it and the requester holds whole frames that are a prefix of the twin's plus at most one cut-off frame at the very end; the bystander is unaffected",
     .assumptions = "frames the daemon refused to queue for S (write buffer full) may be missing from S's stream; that S then has an incomplete replica is C11's / C01's subject",
 };
